@@ -2488,6 +2488,11 @@ providedBy(PyObject* module, PyObject* ob)
 
     result = PyObject_GetAttr(ob, str__provides__);
     if (result == NULL) {
+        if (!PyErr_ExceptionMatches(PyExc_AttributeError)) {
+            /* Propagate non-AttributeErrors */
+            Py_DECREF(cls);
+            return NULL;
+        }
         /* No __provides__, so just fall back to implementedBy */
         PyErr_Clear();
         result = implementedBy(module, cls);
@@ -2497,6 +2502,12 @@ providedBy(PyObject* module, PyObject* ob)
 
     cp = PyObject_GetAttr(cls, str__provides__);
     if (cp == NULL) {
+        if (!PyErr_ExceptionMatches(PyExc_AttributeError)) {
+            /* Propagate non-AttributeErrors */
+            Py_DECREF(cls);
+            Py_DECREF(result);
+            return NULL;
+        }
         /* The the class has no provides, assume we're done: */
         PyErr_Clear();
         Py_DECREF(cls);
